@@ -23,7 +23,7 @@ KINDS = {'High': 'rate::rate_high', 'Low': 'rate::rate_low', 'Default': 'rate::r
 
 
 def run(ctx):
-    cfgs = ['x86_64'] if ctx.tier == 'quick' else ['x86_64', 'aarch64', 'i686']
+    cfgs = ['x86_64', 'x86_64+release'] if ctx.tier == 'quick' else ['x86_64', 'x86_64+release', 'aarch64', 'i686']
     ctx.rule('C08.a-one-definition', 'encoder, decoder and rate of one kind answer supports/validate from one predicate; provided methods are not overridden')
     ctx.rule('C08.b-validate-table', 'Rate::validate is Ok iff supports and shard_bytes non-zero and even (8-row truth table)')
     ctx.rule('C08.c-constructors-agree', 'new/reset fail exactly through validate of their own codec on their own arguments')
@@ -34,12 +34,18 @@ def run(ctx):
     from . import resetrules, c05 as c05_
     ctx.guard('C08.analysable', ctx.shared, {'X.full': 'C08.g-reset-reaches-every-configuration'}, resetrules.check_reset_discipline, ctx, ctx.facts(cfgs[0]), cfgs[0], 'X.drop', 'X.recv', 'X.full')
     ctx.guard('C08.analysable', ctx.shared, {'C05.h-grow-only-lengths': 'C08.g-reset-reaches-every-configuration'}, c05_.grow_only_lengths, ctx, ctx.facts(cfgs[0]), cfgs[0])
+    ctx.rule('C08.i-envelope-works-on-every-engine', 'a configuration inside the envelope encodes and decodes on every engine: the optimised engines run the transform schedule of the reference form (clause shared with C03.a)')
+    from . import c03 as c03_
+    for c_ in ('x86_64', 'aarch64'):
+        ctx.guard('C08.analysable', ctx.shared, {'C03.a-schedule-siblings': 'C08.i-envelope-works-on-every-engine'}, c03_.schedules, ctx, ctx.facts(c_), c_)
+    ctx.rule('C08.h-documented-envelope', 'the acceptance conditions of HighRate::supports, LowRate::supports and of the rate decision are, atom by atom, the documented ones (counts non-zero, below / at most 65536, next_power_of_two of one count plus the other at most 65536; default: min of the powers plus max of the counts); comparisons are normalised (direction, strictness, zero tests, range contains, negation), the rate-choosing comparisons of the decision are not part of it')
     ctx.rule('C08.e-space-for-every-position', 'the decoder sizes its received bitmap from the configuration — max(original_base_pos + original_count, recovery_base_pos + recovery_count) — so that every position of every supported configuration, up to the edge of the envelope, can be marked')
     ctx.rule('C08.f-table-passes-cover-the-table', 'a loop that rewrites a fixed-size table in place element by element (t[i] = f(t[i])) runs over the whole table, 0..len: the last entries are read only by configurations at the edge of the envelope')
     for cfg in cfgs:
         facts = ctx.facts(cfg)
         ctx.guard('C08.analysable', bitmap_covers, ctx, facts, cfg)
         ctx.guard('C08.analysable', table_passes_cover, ctx, facts, cfg)
+        ctx.guard('C08.analysable', documented_envelope, ctx, facts, cfg)
         ctx.guard('C08.analysable', one_definition, ctx, facts, cfg)
         ctx.guard('C08.analysable', validate_table, ctx, facts, cfg)
         ctx.guard('C08.analysable', constructors, ctx, facts, cfg)
@@ -452,3 +458,141 @@ def _root_local(e):
 
 def hcanon_cast(e):
     return core.hcanon(e)
+
+
+# ------------------------------------------------------------------ (h)
+
+def _nm(c):
+    """min/max in one spelling, arguments sorted"""
+    if not isinstance(c, tuple):
+        return c
+    if c and c[0] == 'call' and isinstance(c[1], str) and re.search(r'::(min|max)$', c[1]) and len(c[2]) == 2:
+        return ('call', c[1].rsplit('::', 1)[-1], tuple(sorted((_nm(c[2][0]), _nm(c[2][1])), key=repr)))
+    if c and c[0] == 'call' and isinstance(c[1], str) and c[1].endswith('next_power_of_two'):
+        return ('call', 'next_power_of_two', tuple(_nm(x) for x in c[2]))
+    if c and c[0] == 'call':
+        return ('call', c[1], tuple(_nm(x) for x in c[2]))
+    if c and c[0] == 'ref':
+        return _nm(c[1])
+    return tuple(_nm(x) for x in c)
+
+
+def _atom(op, a, b, pol):
+    """normal form of `a op b` (negated when pol is False) for unsigned integers:
+       ('ne0', x) | ('eq0', x) | ('le0', lin(L - R)) meaning L <= R"""
+    from .c05 import lin
+    a, b = _nm(a), _nm(b)
+    if not pol:
+        op = {'Lt': 'Ge', 'Le': 'Gt', 'Gt': 'Le', 'Ge': 'Lt', 'Eq': 'Ne', 'Ne': 'Eq'}[op]
+    if op in ('Eq', 'Ne'):
+        z = b if a == ('const', 0) else (a if b == ('const', 0) else None)
+        if z is not None:
+            return ('eq0' if op == 'Eq' else 'ne0', z)
+        return (op.lower(), lin(('bin', 'Sub', a, b)))
+    # to L <= R
+    if op == 'Lt':
+        L, R = ('bin', 'Add', a, ('const', 1)), b
+    elif op == 'Le':
+        L, R = a, b
+    elif op == 'Gt':
+        L, R = ('bin', 'Add', b, ('const', 1)), a
+    else:
+        L, R = b, a
+    n = lin(('bin', 'Sub', L, R))
+    # 1 <= x  (x unsigned)  is  x != 0 ;  x <= 0 is x == 0
+    if n[0] == 1 and len(n[1]) == 1 and n[1][0][1] == -1:
+        return ('ne0', eval(n[1][0][0]))
+    if n[0] == 0 and len(n[1]) == 1 and n[1][0][1] == 1:
+        return ('eq0', eval(n[1][0][0]))
+    return ('le0', n)
+
+
+def accept_atoms(c, pol=True):
+    """atoms of a condition that is a pure conjunction once negations are pushed inward; None if it is not"""
+    if not isinstance(c, tuple) or not c:
+        return None
+    if c[0] == 'and' and pol or c[0] == 'or' and not pol:
+        a, b = accept_atoms(c[1], pol), accept_atoms(c[2], pol)
+        return None if a is None or b is None else a | b
+    if c[0] in ('and', 'or'):
+        return None
+    if c[0] == 'un' and c[1] == 'Not':
+        return accept_atoms(c[2], not pol)
+    if c[0] == 'bin' and c[1] in ('Lt', 'Le', 'Gt', 'Ge', 'Eq', 'Ne'):
+        return {_atom(c[1], c[2], c[3], pol)}
+    if c[0] == 'call' and isinstance(c[1], str) and c[1].endswith('::contains') and len(c[2]) == 2 and pol:
+        r = c[2][0]
+        while isinstance(r, tuple) and r and r[0] == 'ref':
+            r = r[1]
+        x = c[2][1]
+        if isinstance(r, tuple) and r and r[0] == 'call' and str(r[1]).endswith('RangeInclusive::<Idx>::new') and len(r[2]) == 2:
+            return {_atom('Le', r[2][0], x, True), _atom('Le', x, r[2][1], True)}
+        if isinstance(r, tuple) and r and r[0] == 'struct' and str(r[1]).endswith('ops::Range'):
+            d = dict(r[2])
+            return {_atom('Le', d.get('start'), x, True), _atom('Lt', x, d.get('end'), True)}
+    return None
+
+
+def documented_envelope(ctx, facts, cfg):
+    R = 'C08.h-documented-envelope'
+    G = facts.consts.get('engine::GF_ORDER', 65536)
+    o, r = ('local', 'original_count'), ('local', 'recovery_count')
+    np2 = lambda x: ('call', 'next_power_of_two', (x,))
+    A = lambda op, a, b: _atom(op, a, b, True)
+    doc = {
+        'High': {A('Ne', o, ('const', 0)), A('Ne', r, ('const', 0)), A('Lt', o, ('const', G)), A('Lt', r, ('const', G)), A('Le', ('bin', 'Add', np2(r), o), ('const', G))},
+        'Low': {A('Ne', o, ('const', 0)), A('Ne', r, ('const', 0)), A('Lt', o, ('const', G)), A('Lt', r, ('const', G)), A('Le', ('bin', 'Add', np2(o), r), ('const', G))},
+        'Default': {A('Ne', o, ('const', 0)), A('Ne', r, ('const', 0)), A('Le', o, ('const', G)), A('Le', r, ('const', G)),
+                    A('Le', ('bin', 'Add', ('call', 'min', tuple(sorted((np2(o), np2(r)), key=repr))), ('call', 'max', tuple(sorted((o, r), key=repr)))), ('const', G))},
+    }
+
+    def show(a):
+        return core.hshow(a) if not (isinstance(a, tuple) and a and a[0] in ('le0', 'ne0', 'eq0', 'eq', 'ne')) else '%s %s' % (a[0], a[1])
+    n = 0
+    for K in ('High', 'Low'):
+        key = '<%s::%sRate<E> as rate::Rate<E>>::supports' % (KINDS[K], K)
+        fn = ctx.anchor(facts, key, R)
+        if fn is None:
+            continue
+        exits = core.fn_exits(fn)
+        got = None
+        if len(exits) == 1:
+            got = accept_atoms(core.inline_calls(hcanon(exits[0][0], exits[0][2]), facts))
+        n += 1
+        if got is None:
+            ctx.violation(R, 'shape:%s' % K, '%s::supports is not a conjunction of comparisons this rule can normalise (unrecognised idiom)' % K, site=fn.span, fn=key, cfg=cfg)
+        elif got != doc[K]:
+            ctx.violation(R, 'atoms:%s' % K, '%s::supports accepts under %s; the documented envelope is %s (missing: %s; extra: %s)'
+                          % (K, sorted(map(show, got)), sorted(map(show, doc[K])), sorted(map(show, doc[K] - got)), sorted(map(show, got - doc[K]))), site=fn.span, fn=key, cfg=cfg)
+        else:
+            ctx.ok(R, '%s::supports@%s' % (K, cfg), {'atoms': sorted(map(show, got))})
+    # the rate decision: atoms common to all Ok exits
+    dec = None
+    for p, f in facts.fns.items():
+        if (f.output or '').startswith('std::result::Result<bool, Error>') and p.startswith('rate::rate_default'):
+            dec = f
+    if dec is None:
+        ctx.violation(R, 'no-decision', 'rate decision function not found', fn='rate::rate_default', cfg=cfg)
+        return
+    common = None
+    for (x, conds, env) in core.fn_exits(dec):
+        v = hcanon(x, env)
+        if not (v[0] == 'call' and str(v[1]).endswith('::Ok')):
+            continue
+        atoms = set()
+        bad = False
+        for c_, pol in core.flatten_conds(conds, env):
+            aa = accept_atoms(core.inline_calls(c_, facts), pol)
+            if aa is None:
+                continue        # a condition that is not a conjunction of comparisons (the three-way rate comparison)
+            atoms |= aa
+        common = atoms if common is None else (common & atoms)
+    n += 1
+    if common is None:
+        ctx.violation(R, 'shape:Default', 'the rate decision has no Ok exit this rule can read', site=dec.span, fn=dec.path, cfg=cfg)
+    elif doc['Default'] <= common:
+        ctx.ok(R, 'decision@%s' % cfg, {'atoms': sorted(map(show, doc['Default']))})
+    else:
+        ctx.violation(R, 'atoms:Default', 'every Ok exit of the rate decision holds under %s, which does not include the documented acceptance condition(s) %s'
+                      % (sorted(map(show, common)), sorted(map(show, doc['Default'] - common))), site=dec.span, fn=dec.path, cfg=cfg)
+    ctx.floor(R, 3, n, 'support predicates', cfg=cfg)
